@@ -708,7 +708,18 @@ REFINED = ["Context::repr_round", "Context::mul/sqr/cubic (operands <= 2p/3p dig
            "digit clause of Context::div with NO fit hypothesis (ctx_div_digits_all: every dividend, sound digits_ub/"
            "digits_lb => at most p+1 digits, witness 200456/13 @2 = 154e2 inside the pre-shrink region); "
            "operators_add_sub_contract: FBig + / - (all forms) meet the contract for operands that fit p (flag existential: the "
-           "operators drop it) and return a representable sum exactly"]
+           "operators drop it) and return a representable sum exactly",
+           "round 8: closing clause `representable => exact` INSIDE the regions of the findings decided - Context::div: "
+           "fit hypothesis DROPPED (ctx_div_representable_exact_all: every normalised dividend of any length, any digit "
+           "estimators, sound or not; a normalised Repr whose value is representable in q digits has <= q digits "
+           "(normalized_representable_digits), so the clause is vacuous in DivShrinkRegion: div_region_not_representable; "
+           "witness 2197/13 @3 with slack estimators that do trigger the pre-shrink); Context::mul: REFUTED for directed "
+           "modes (mul_representable_preshrink_counterexample: 390625*64 = 25e6 @2 Zero returns 24e6 Inexact); Context::add/sub: "
+           "REFUTED (add_representable_guard_counterexample: 21e40 - 979775e37 = 1e37, base 36 @1 Down returns 0) - both inside the "
+           "input classes of the recorded findings; Context::sqr / cubic: length hypotheses DROPPED "
+           "(ctx_sqr_representable_exact_all / ctx_cubic_representable_exact_all: every normalised operand; the clause is "
+           "vacuous in SqrShrinkRegion / CubicShrinkRegion: sqr_/cubic_region_not_representable via pow_repr_bound, "
+           "B∤s => B^n∤s^n; witness 6^2 = 9*4^1 in base 4, where B | s^2 although B∤s)"]
 FRONTIER = ["UBig::sqrt_rem: a parameter with its C12 contract (SqrtRemOk); Props/C03Link composes Context::sqrt with builder-nt's mirrored "
             "sqrtRemRepr (whose word/double-word primitive and Karatsuba kernel are frontier in C12) and proves it equal to the Nat.sqrt "
             "instance the driver runs",
@@ -731,8 +742,11 @@ FRONTIER = ["UBig::sqrt_rem: a parameter with its C12 contract (SqrtRemOk); Prop
             "clause `|r - x| < 1 ulp` for Context methods on Reprs longer than the working length: only `_partial` / "
             "`*_contract_outside_region` theorems (the code violates the clause inside the regions: counterexample theorems)"
             "; the clause `at most p+1 digits` is no longer partial for Context::div (round 7, ctx_div_digits_all) nor for add/sub "
-            "(add_sub_digits) - `representable => exact` inside the regions has no theorem (the pre-shrink rounds "
-            "first; neither proved nor refuted there)"]
+            "(add_sub_digits); `representable => exact` inside the regions (round 8): proved for Context::div (vacuous there "
+            "for normalised dividends) and Context::sqr / cubic (vacuous there for normalised operands), refuted by counterexample "
+            "theorems for Context::mul (directed modes) and add/sub; still neither proved nor refuted: Context::mul inside "
+            "MulShrinkRegion for the nearest modes (HalfEven/HalfAway); all `_all` theorems assume Normalized operands "
+            "(what Repr::new builds) - un-normalised Reprs are not covered"]
 THEOREMS = ["Dashu.Props.C03." + t for t in (
     "mul_operator_contract mul_contract_partial mul_preshrink_counterexample sqr_contract_partial cubic_contract_partial "
     "add_sub_contract add_sub_far_contract round_sum_contract operators_add_sub div_contract ctx_div_contract_partial inv_contract "
@@ -741,7 +755,10 @@ THEOREMS = ["Dashu.Props.C03." + t for t in (
     "mul_contract_outside_region div_contract_outside_region add_sub_contract_outside_region div_preshrink_counterexample "
     "add_guard_digit_counterexample sqrt_exact_flag_iff sqrt_discarded_low_inexact "
     "ctx_mul_representable_exact ctx_sqr_representable_exact ctx_cubic_representable_exact ctx_div_representable_exact "
-    "ctx_div_digits_all ctx_div_digits operators_add_sub_contract").split()] + [
+    "ctx_div_digits_all ctx_div_digits operators_add_sub_contract "
+    "dividend_representable normalized_representable_digits div_region_not_representable ctx_div_representable_exact_all "
+    "mul_representable_preshrink_counterexample add_representable_guard_counterexample "
+    "pow_repr_bound sqr_region_not_representable cubic_region_not_representable ctx_sqr_representable_exact_all ctx_cubic_representable_exact_all").split()] + [
     "Dashu.Props.C03Link.sqrt_contract_over_sqrt_rem", "Dashu.Props.C03Link.kernels_agree",
     "Dashu.Props.C03Link.sqrt_exact_flag_over_sqrt_rem"] + [
     "Dashu.Props.GenFloatArith." + t for t in (
